@@ -64,12 +64,19 @@ def run(ctx):
                 'out-of-range values, int and per-digit base forms, binary fast path; non-trivial = >=2 digits and value>1. '
                 'views: generated ResultDicts (0..17 repetitions, 1..5 keys, 1..3 instances per key, 0..70 qubits, bool/uint8/int64 '
                 'binary and mixed-radix digits) observed through measurements, data frame, histogram (default, fold_base int/list, '
-                'custom folds), multi_measurement_histogram (key subsets in any order), +, repetitions, JSON packing; '
+                'custom folds), multi_measurement_histogram (key subsets in any order), +, repetitions, JSON packing; r1 + r2 with a right operand of its own '
+                'dtype and digit range (bool/uint8/int8/uint16/int32/int64, qudit digits) plus a fixed grid of every ordered dtype pair (empty and filled left '
+                'operand holding bits, right operand holding the largest digits of its dtype), judged digit by digit as integers and through every view of the sum; '
                 'non-trivial = >=2 repetitions, >=2 qubits, rows not all equal. large: results on both sides of the histogram '
                 'batch size (fixed grid 50000, 50001, 60000 = 30000 + 30000, 100001 repetitions plus random sizes; bit, wide (40..70 bits) '
                 'and mixed-radix keys whose rows come from an arithmetic generator that the model re-runs) seen through every view, '
                 'r1 + r2 and JSON; _vectorized_histogram with batch sizes 1..5 on the small results. sampler: fake samplers on the base class '
-                '(sync-only, async-only) and ZerosSampler through run/run_async/sample/run_sweep/run_batch(_async). shapes: circuits whose moments are '
+                '(sync-only, async-only) and ZerosSampler through run/run_async/sample/run_sweep/run_batch(_async); cirq_google.ProcessorSampler(jobs_per_batch=1..7) '
+                'on a model processor that answers a call of several programs program by program, then point by point: run_batch(_async) of lists and mappings of '
+                '0..6 programs drawn with few distinct (sweep, repetitions) settings so that equal settings recur next to each other and apart, plus a fixed grid '
+                '(jobs_per_batch 1..4 x settings adjacent / apart / alternating / all equal / all different); position i must hold the results of programs[i] '
+                '(own repetitions, own sweep points, own bits), every program run exactly once, at most jobs_per_batch programs per call; the cut into API calls '
+                'and the placement of results are compared with the model. shapes: circuits whose moments are '
                 'written out by hand - several measurements of ONE moment sharing a key (parallel readout), keys repeated over moments, both, next to gates, '
                 'qutrits, frozen circuits, keys whose measurements differ in qid shape (refused) - as a fixed grid for every seed plus generated ones; '
                 'Sampler._get_measurement_shapes and every ZerosSampler entry point against the documented (repetitions, instances, qubits) shape, against '
@@ -77,7 +84,9 @@ def run(ctx):
                 'distinct by canonical input')
     ctx.assumptions += ['vf/checks/c18.py adapters calling Cirq and canonicalising outputs',
                         'Python int <-> Coq Z literal printing',
-                        'numpy, pandas and collections.Counter are modelled as list functions; the .npy header is parsed by numpy']
+                        'numpy, pandas and collections.Counter are modelled as list functions; the .npy header is parsed by numpy',
+                        'record digits are integers in the model (no dtype); ProcessorSampler is driven through a model processor/job (duck-typed '
+                        'run_sweep_async / results_async) that returns one result per sweep point for each program of a call, grouped by program']
     ctx.set_obligations(coq.compile_props('C18'))
     q = ctx.tier == 'quick'
     try:
@@ -86,6 +95,10 @@ def run(ctx):
         for shard in range(0, n, 160):
             views_stream(ctx, cirq, min(160, n - shard), shard)
         sampler_stream(ctx, cirq, 60 if q else 600)
+        cg = env.import_cirq(vendors=('cirq_google',))['cirq_google']
+        n = 120 if q else 2400
+        for shard in range(0, n, 240):
+            procsampler_stream(ctx, cirq, cg, min(240, n - shard), shard=shard)
         n = 70 if q else 900
         for shard in range(0, n, 300):
             shapes_stream(ctx, cirq, min(300, n - shard), shard)
@@ -371,6 +384,121 @@ def str_spells_records(text, recs):
     return bool(ok_s)
 
 
+# ------------------------------------------------------------------ r1 + r2
+ADD_DTYPES = ['bool', 'uint8', 'int8', 'uint16', 'int32', 'int64']
+
+
+def gen_right_operand(rng, left_dtype, left_bases):
+    """dtype and digit range of the right operand of r1 + r2 for one key.  A record array carries neither a radix nor a
+    prescribed dtype (a simulator stores uint8 digits, bits come as bool, stored results as whatever was written), so the
+    two operands of a sum need agree only in (instances, qubits)."""
+    if rng.random() < 0.4:
+        return left_dtype, left_bases
+    dt = rng.choice(ADD_DTYPES)
+    if dt == 'bool':
+        return dt, [2] * len(left_bases)
+    if rng.random() < 0.3:
+        return dt, left_bases
+    return dt, [rng.choice([2, 3, 3, 4, 5, 7]) for _ in left_bases]
+
+
+def digits_of(arr):
+    """A record array as nested Python ints: repetitions x instances x qubits."""
+    return [[[int(d) for d in inst] for inst in rep] for rep in np.asarray(arr)]
+
+
+def add_grid():
+    """Operand pairs of r1 + r2 for every ordered pair of dtypes, two keys each.  Key m0: a left operand holding bits (0 or 2
+    repetitions: the empty accumulator and a filled one) and a right operand holding the largest digits its dtype carries, in
+    one- and several-instance shapes.  Key z: the dtypes the other way round, the large digits on the left."""
+    top = {'bool': 1, 'uint8': 5, 'int8': 4, 'uint16': 300, 'int32': 70000, 'int64': 2 ** 40}
+    out = []
+    for dl in ADD_DTYPES:
+        for dr in ADD_DTYPES:
+            for lreps, (inst, nq) in ((0, (1, 2)), (2, (1, 2)), (2, (2, 3))):
+                hi = top[dr]
+                a = np.array([[[(r + j + i) % 2 for i in range(nq)] for j in range(inst)] for r in range(lreps)], dtype=dl).reshape((lreps, inst, nq))
+                b = np.array([[[[hi, 1, 2 % (hi + 1), 0][(r + 2 * j + i) % 4] for i in range(nq)] for j in range(inst)] for r in range(3)], dtype=dr)
+                a2 = np.array([[[top[dr]]]] * lreps, dtype=dr).reshape((lreps, 1, 1))      # key z: wide digits on the left, narrower dtype on the right
+                b2 = np.array([[[min(top[dl], 3)]], [[0]], [[1]]], dtype=dl)
+                out.append((collections.OrderedDict([('m0', a), ('z', a2)]), collections.OrderedDict([('m0', b), ('z', b2)])))
+    return out
+
+
+def add_payload(recs2):
+    return {k: dict(dtype=str(a.dtype), digits=a.tolist(), shape=list(a.shape)) for k, a in recs2.items()}
+
+
+def spec_add_failure(cirq, recs, recs2, tot):
+    """What is wrong with tot = r1 + r2, judged by the meaning of concatenation: the sum holds, for every key, the digits of r1
+    followed by the digits of r2 (as integers, whatever the dtypes), and every other view of the sum tells that story."""
+    reps = next(iter(recs.values())).shape[0] if recs else 0
+    reps2 = next(iter(recs2.values())).shape[0] if recs2 else 0
+    if set(tot.records) != set(recs):
+        return f'keys {sorted(tot.records)}'
+    for k in recs:
+        want = digits_of(recs[k]) + digits_of(recs2[k])
+        got = digits_of(tot.records[k])
+        if got != want or tuple(np.asarray(tot.records[k]).shape[1:]) != tuple(recs[k].shape[1:]):
+            return f'key {k!r}: records of the sum hold {got}, the digits of r1 followed by those of r2 are {want}'
+    if tot.repetitions != (reps + reps2 if recs else 0):
+        return f'repetitions {tot.repetitions} for {reps} + {reps2}'
+    mk = lambda rr: cirq.ResultDict(params=cirq.ParamResolver({'p': 0.25}), records={k: a.copy() for k, a in rr.items()})
+    sm1, sm2 = spec_measurements(recs), spec_measurements(recs2)
+    if sm1 is not None and sm2 is not None:
+        meas = {k: [[int(x) for x in row] for row in v] for k, v in tot.measurements.items()}
+        if meas != {k: sm1[k] + sm2[k] for k in recs}:
+            return f'measurements of the sum {meas}'
+        r1, r2 = mk(recs), mk(recs2)
+        for k in recs:
+            if list(tot.data[k]) != list(r1.data[k]) + list(r2.data[k]):
+                return f'data frame column {k!r} of the sum {list(tot.data[k])} is not that of r1 followed by that of r2'
+            if tot.histogram(key=k, fold_func=FOLDS['id']) != r1.histogram(key=k, fold_func=FOLDS['id']) + r2.histogram(key=k, fold_func=FOLDS['id']):
+                return f'histogram of key {k!r} of the sum is not the sum of the histograms'
+            nq = recs[k].shape[2]
+            top = max([2] + [d for rows in (sm1[k], sm2[k]) for row in rows for d in row]) + 1
+            if 0 < nq <= 12:
+                h = tot.histogram(key=k, fold_base=top)
+                exp = collections.Counter(spec_int(row, [top] * nq) for row in sm1[k] + sm2[k])
+                if dict(h) != dict(exp):
+                    return f'histogram(key={k!r}, fold_base={top}) of the sum is {dict(h)}, counting the rows of r1 and r2 gives {dict(exp)}'
+    both = collections.OrderedDict((k, np.array(digits_of(recs[k]) + digits_of(recs2[k]), dtype=np.int64).reshape((reps + reps2,) + recs[k].shape[1:])) for k in recs)
+    if recs and all(a.shape[0] > 0 and a.shape[2] > 0 for a in both.values()) and not str_spells_records(str(tot), both):
+        return f'str of the sum {str(tot)[:300]!r}'
+    back = cirq.read_json(json_text=cirq.to_json(tot))
+    for k in recs:
+        if digits_of(back.records[k]) != digits_of(both[k]):
+            return f'JSON round trip of the sum holds {digits_of(back.records[k])} under key {k!r}'
+    return None
+
+
+def judge_add(ctx, cirq, recs, recs2, R, kid, nontriv):
+    reps = next(iter(recs.values())).shape[0] if recs else 0
+    reps2 = next(iter(recs2.values())).shape[0] if recs2 else 0
+    desc = {k: dict(shape=list(a.shape), dtype=str(a.dtype), digits=a.tolist() if a.size <= 24 else '...') for k, a in recs.items()}
+    desc2 = {k: dict(shape=list(a.shape), dtype=str(a.dtype), digits=a.tolist() if a.size <= 24 else '...') for k, a in recs2.items()}
+    rp = dict(kind='views', records={k: dict(dtype=str(a.dtype), shape=list(a.shape), digits=a.tolist()) for k, a in recs.items()}, other=add_payload(recs2))
+    res = cirq.ResultDict(params=cirq.ParamResolver({'p': 0.25}), records={k: a.copy() for k, a in recs.items()})
+    res2 = cirq.ResultDict(params=cirq.ParamResolver({'p': 0.25}), records={k: a.copy() for k, a in recs2.items()})
+    tot = _try(lambda: res + res2)
+    t_out = None if tot is None else collections.OrderedDict((k, np.asarray(v)) for k, v in tot.records.items())
+    R['add'].append((res_lit(recs, kid), res_lit(recs2, kid), None if t_out is None else res_lit(t_out, kid)))
+    mixed = any(k in recs2 and recs[k].dtype != recs2[k].dtype for k in recs)
+    ctx.count('views:add', [[(k, str(a.dtype), a.tolist()) for k, a in recs.items()], [(k, str(a.dtype), a.tolist()) for k, a in recs2.items()]],
+              nontriv and tot is not None and reps2 > 0,
+              sample=dict(r1=desc, r2=desc2, sum=None if t_out is None else {k: a.tolist() if a.size <= 24 else '...' for k, a in t_out.items()}))
+    if mixed and tot is not None and reps2 > 0:
+        ctx.count('views:add:mixed_dtypes', [[(k, str(a.dtype), a.tolist()) for k, a in recs.items()], [(k, str(a.dtype), a.tolist()) for k, a in recs2.items()]],
+                  any((int(recs2[k].max(initial=0)) > (1 if recs[k].dtype == bool else np.iinfo(recs[k].dtype).max)) for k in recs if k in recs2))
+    same = set(recs) == set(recs2) and all(recs[k].shape[1:] == recs2[k].shape[1:] for k in recs)
+    if same != (tot is not None):
+        ctx.violation('views:add', f'r1 + r2 {"raised" if tot is None else "succeeded"} for shapes {desc} + { {k: list(a.shape) for k, a in recs2.items()} }', rp)
+    elif tot is not None:
+        why = spec_add_failure(cirq, recs, recs2, tot)
+        if why is not None:
+            ctx.violation('views:add', f'r1 + r2 does not describe the repetitions of r1 followed by those of r2: {why}; r1 = {desc}, r2 = {desc2}', rp)
+
+
 def views_stream(ctx, cirq, n, shard=0):
     rng = ctx.rng
     R = dict(meas=[], df=[], hist=[], histf=[], multi=[], add=[], json=[])
@@ -489,7 +617,7 @@ def views_stream(ctx, cirq, n, shard=0):
             if (None if h is None else dict(h)) != (None if exp is None else dict(exp)):
                 ctx.violation('views:multi_histogram', f'multi_measurement_histogram(keys={ks}, fold={mname}) of {desc} = {h}, counting rows in key order gives {exp}',
                               dict(rp, keys=ks, fold=mname))
-        # -- concatenation
+        # -- concatenation: the right operand has its own dtype and its own digits (records carry no radix)
         reps2 = rng.choice([0, 1, 2, 4])
         recs2 = collections.OrderedDict()
         order = list(recs)
@@ -498,9 +626,10 @@ def views_stream(ctx, cirq, n, shard=0):
         bad = rng.random() < 0.2
         for k in order:
             a = recs[k]
-            b = np.zeros((reps2,) + a.shape[1:], dtype=a.dtype)
+            dt2, bases2 = gen_right_operand(rng, str(a.dtype), spec[k]['bases'])
+            b = np.zeros((reps2,) + a.shape[1:], dtype=dt2)
             for idx in np.ndindex(b.shape):
-                b[idx] = rng.randrange(spec[k]['bases'][idx[2]])
+                b[idx] = rng.randrange(bases2[idx[2]])
             recs2[k] = b
         if bad and recs2:
             k = rng.choice(list(recs2))
@@ -513,25 +642,10 @@ def views_stream(ctx, cirq, n, shard=0):
                 recs2[k] = np.zeros((reps2, recs2[k].shape[1], recs2[k].shape[2] + 1), dtype=recs2[k].dtype)
             else:
                 recs2['missing'] = np.zeros((reps2, 1, 1), dtype=bool)
-        res2 = cirq.ResultDict(params=cirq.ParamResolver({'p': 0.25}), records={k: a.copy() for k, a in recs2.items()})
-        tot = _try(lambda: res + res2)
-        t_out = None if tot is None else collections.OrderedDict((k, np.asarray(v)) for k, v in tot.records.items())
-        R['add'].append((lit, res_lit(recs2, kid), None if t_out is None else res_lit(t_out, kid)))
-        ctx.count('views:add', [canon_in, [(k, a.tolist()) for k, a in recs2.items()]], nontriv and tot is not None and reps2 > 0)
-        same = set(recs) == set(recs2) and all(recs[k].shape[1:] == recs2[k].shape[1:] for k in recs)
-        if same != (tot is not None):
-            ctx.violation('views:add', f'r1 + r2 {"raised" if tot is None else "succeeded"} for shapes {desc} + { {k: list(a.shape) for k, a in recs2.items()} }',
-                          dict(rp, other={k: dict(dtype=str(a.dtype), digits=a.tolist(), shape=list(a.shape)) for k, a in recs2.items()}))
-        elif tot is not None:
-            ok = all(np.array_equal(t_out[k], np.concatenate([recs[k], recs2[k]], axis=0)) for k in recs) and tot.repetitions == (reps + reps2 if recs else 0)
-            # every view of the sum is the concatenation / sum of the views
-            if ok and sm is not None and spec_measurements(recs2) is not None:
-                for k in recs:
-                    ok = ok and list(tot.data[k]) == list(res.data[k]) + list(res2.data[k])
-                    ok = ok and tot.histogram(key=k, fold_func=FOLDS['id']) == res.histogram(key=k, fold_func=FOLDS['id']) + res2.histogram(key=k, fold_func=FOLDS['id'])
-            if not ok:
-                ctx.violation('views:add', f'views of r1 + r2 are not the concatenation of the views: {desc}',
-                              dict(rp, other={k: dict(dtype=str(a.dtype), digits=a.tolist(), shape=list(a.shape)) for k, a in recs2.items()}))
+        judge_add(ctx, cirq, recs, recs2, R, kid, nontriv)
+        if shard == 0 and case == 0:        # the fixed grid of dtype pairs, the same for every seed
+            for g1, g2 in add_grid():
+                judge_add(ctx, cirq, g1, g2, R, kid, True)
         # -- string form: one line per key (sorted) and instance, one digit string per qubit running over the repetitions
         if recs and all(a.shape[0] > 0 and a.shape[2] > 0 for a in recs.values()):
             ok_s = str_spells_records(str(mk()), recs)
@@ -1360,6 +1474,236 @@ def sampler_stream(ctx, cirq, n):
         ctx.mark_broken('correspondence:sampler:run_batch', f'model and implementation differ on {rows_batch[idx]}')
 
 
+# ------------------------------------------------------------------ ProcessorSampler: run_batch cut into API calls (jobs_per_batch)
+def program_mark(cirq, program):
+    """The number a program of this stream carries in its own content: the pattern of its X gates."""
+    return sum(1 << op.qubits[0].x for op in program.all_operations() if op.gate == cirq.X)
+
+
+def marked_results(cirq, program, params, repetitions):
+    """What the model processor measures for ONE program: one result per sweep point, carrying that point; the bits encode
+    (mark of the program, index of the sweep point, repetition, instance), so results of different programs differ."""
+    mark = program_mark(cirq, program)
+    out = []
+    for i, pr in enumerate(cirq.to_resolvers(params)):
+        recs = {}
+        for k, (_, inst, nq_) in spec_record_shapes(cirq, program, repetitions).items():
+            a = np.zeros((repetitions, inst, nq_), dtype=np.uint8)
+            for r in range(repetitions):
+                for j in range(inst):
+                    for b in range(nq_):
+                        a[r, j, b] = ((mark * 7 + i * 3 + r * 5 + j + len(k)) >> b) & 1
+            recs[k] = a
+        out.append(cirq.ResultDict(params=pr, records=recs))
+    return out
+
+
+def batch_grid(cirq, sweeps):
+    """(marks, sweep indices or None, repetitions) of the batches every run judges: equal settings next to each other, apart
+    (separated by a program with other repetitions / another sweep), alternating, all equal, all different."""
+    out = []
+    for reps in ([2, 3, 2], [2, 2, 3], [3, 2, 2], [1, 2, 1, 2], [2, 2, 2, 2, 2], [3, 1, 1, 3], [1, 2, 3], [2, 1, 2, 2, 1, 2]):
+        out.append((list(range(1, len(reps) + 1)), None, reps))
+    for sw in ([1, 2, 1], [1, 2, 1, 2], [1, 1, 2, 1], [1, 3, 1], [0, 1, 0, 1, 0], [2, 2, 2, 2], [1, 4, 4, 1]):
+        out.append((list(range(3, len(sw) + 3)), sw, 2))
+    out.append(([5, 6, 7, 8], [1, 1, 2, 1], [1, 2, 1, 1]))
+    out.append(([9, 3, 9, 3], [1, 2, 1, 2], [1, 1, 1, 1]))     # the same program twice, with different sweeps
+    return out
+
+
+def procsampler_stream(ctx, cirq, cg, n, only=None, shard=0):
+    import duet, sympy
+    from collections.abc import Mapping
+    rng = ctx.rng
+    qs = cirq.LineQubit.range(5)
+    t = sympy.Symbol('t')
+    # sweeps: index 1 and 5 are equal objects built twice, 1 and 3 have the same points but are different sweeps
+    mk_sweeps = lambda: [None, cirq.Points('t', [0, 1]), cirq.Points('t', [1]), cirq.Linspace('t', 0, 1, 2),
+                         cirq.Product(cirq.Points('t', [0, 1]), cirq.Points('u', [0.25, 0.5, 0.75])), cirq.Points('t', [0, 1]), {'t': 1.0}]
+    pool = mk_sweeps()
+
+    def sweep_id(sw):
+        for j, other in enumerate(pool):
+            try:
+                if bool(other == sw):
+                    return j
+            except Exception:
+                pass
+        raise AssertionError(sw)
+
+    def program(mark, two_keys=False):
+        ops = [cirq.X(q) for q in qs if (mark >> q.x) & 1] + [cirq.Z(qs[0]) ** t, cirq.measure(*qs, key='m')]
+        if two_keys:
+            ops.append(cirq.measure(qs[1], qs[3], key='ab'))
+        return cirq.Circuit(ops)
+
+    class FakeJob:
+        def __init__(self, results):
+            self._results = results
+
+        async def results_async(self):
+            return self._results
+
+    class FakeProcessor:
+        """Measures every program it is handed; results grouped by program, then by sweep point (like the engine)."""
+        def __init__(self):
+            self.calls = []
+
+        async def run_sweep_async(self, program, params, repetitions, **kwargs):
+            if isinstance(program, Mapping):
+                programs = list(program.values())
+            elif isinstance(program, cirq.AbstractCircuit):
+                programs = [program]
+            else:
+                programs = list(program)
+            self.calls.append((programs, params, repetitions))
+            out = []
+            for p_ in programs:
+                out.extend(marked_results(cirq, p_, params, repetitions))
+            return FakeJob(out)
+
+    def show(results):
+        return [[(dict(r.params.param_dict), {k: a.tolist() for k, a in r.records.items()}) for r in rs] for rs in results]
+
+    cases = []
+    for jpb in (1, 2, 3, 4) if shard == 0 else ():
+        for marks, sw, reps in batch_grid(cirq, pool):
+            for as_map in (False, True):
+                cases.append(('grid', jpb, marks, sw, reps, as_map, False))
+    for _ in range(n):
+        npg = rng.choice([0, 1, 2, 3, 4, 5, 6])
+        marks = [rng.randrange(32) for _ in range(npg)]
+        pmode = rng.choice(['none', 'list', 'list', 'list', 'short', 'long'] if rng.random() < 0.3 else ['none', 'list', 'list'])
+        rmode = rng.choice(['int', 'list', 'list', 'short', 'long'] if rng.random() < 0.3 else ['int', 'list', 'list'])
+        few = rng.sample(range(len(pool)), rng.choice([1, 2, 2, 3]))      # few distinct settings, so that equal ones recur
+        sw = None if pmode == 'none' else [rng.choice(few) for _ in range(max(0, npg + {'list': 0, 'short': -1, 'long': 1}[pmode]))]
+        rfew = rng.sample([0, 1, 2, 3], rng.choice([1, 2, 2]))
+        reps = rng.choice([1, 2, 3]) if rmode == 'int' else [rng.choice(rfew) for _ in range(max(0, npg + {'list': 0, 'short': -1, 'long': 1}[rmode]))]
+        cases.append(('random', rng.choice([1, 2, 2, 3, 3, 4, 7]), marks, sw, reps, rng.random() < 0.3, rng.random() < 0.3))
+    if only is not None:
+        cases = [only]
+    rows = []
+    for origin, jpb, marks, sw, reps, as_map, two_keys in cases:
+        npg = len(marks)
+        progs = [program(m, two_keys) for m in marks]
+        fresh = mk_sweeps()                    # equal sweeps of one batch are separate objects
+        plist = None if sw is None else [fresh[j] if i % 2 else pool[j] for i, j in enumerate(sw)]
+        arg = {f'p{i}': c for i, c in enumerate(progs)} if as_map else progs
+        bad = (plist is not None and len(plist) != npg) or (not isinstance(reps, int) and len(reps) != npg)
+        if bad:
+            exp = pp = rr = None
+        else:
+            pp = [None] * npg if plist is None else plist
+            rr = [reps] * npg if isinstance(reps, int) else reps
+            exp = [marked_results(cirq, c, p_, r) for c, p_, r in zip(progs, pp, rr)]
+        label = lambda entry_: (f'ProcessorSampler(jobs_per_batch={jpb}).{entry_}({"mapping of " if as_map else ""}{npg} programs with X patterns {marks}, '
+                                f'params_list={None if sw is None else [repr(p_) for p_ in plist]}, repetitions={reps})')
+        for entry in ('run_batch', 'run_batch_async'):
+            proc = FakeProcessor()
+            sampler = cg.ProcessorSampler(processor=proc, jobs_per_batch=jpb)
+            try:
+                got = sampler.run_batch(arg, plist, reps) if entry == 'run_batch' else duet.run(sampler.run_batch_async, arg, plist, reps)
+                got = [list(g) for g in got]
+            except ValueError:
+                got = None
+            settings = sorted({(sweep_id(p_), r) for p_, r in zip(pp, rr)}) if exp is not None else []
+            apart = exp is not None and any(
+                (sweep_id(pp[i]), rr[i]) == (sweep_id(pp[k]), rr[k]) and any((sweep_id(pp[m]), rr[m]) != (sweep_id(pp[i]), rr[i]) for m in range(i + 1, k))
+                for i in range(npg) for k in range(i + 2, npg))
+            ctx.count('sampler:processor:' + entry, [jpb, marks, sw, reps, as_map, two_keys], exp is not None and npg >= 2 and jpb >= 2 and len(settings) >= 2,
+                      sample=dict(jobs_per_batch=jpb, programs=marks, sweeps=sw, repetitions=reps, mapping=as_map,
+                                  api_calls=[([program_mark(cirq, p_) for p_ in c[0]], c[2]) for c in proc.calls], shape=None if got is None else [len(g) for g in got]))
+            if apart and jpb >= 2:
+                ctx.count('sampler:processor:equal_settings_apart', [jpb, marks, sw, reps, as_map, two_keys, entry], True)
+            rp = dict(kind='procsampler', jobs_per_batch=jpb, marks=marks, sweeps=sw, repetitions=reps, mapping=as_map, two_keys=two_keys, entry=entry)
+            if (got is None) != (exp is None):
+                ctx.violation('sampler:processor:run_batch', label(entry) + (' raised ValueError' if got is None else ' did not refuse lists of the wrong length'), rp)
+                continue
+            if got is None:
+                continue
+            # by meaning: position i holds the results of programs[i] - its own repetitions, its own sweep points in order, its own bits
+            why = None
+            if len(got) != npg:
+                why = f'{len(got)} result lists for {npg} programs'
+            for i in range(min(len(got), npg)):
+                if why is None and len(got[i]) != len(exp[i]):
+                    why = f'results[{i}] has {len(got[i])} entries, sweep {i} has {len(exp[i])} points'
+                for j in range(min(len(got[i]), len(exp[i]))):
+                    if why is None and got[i][j] != exp[i][j]:
+                        g, e = got[i][j], exp[i][j]
+                        why = (f'results[{i}][{j}] has params {dict(g.params.param_dict)}, {g.repetitions} repetitions, records { {k: a.tolist() for k, a in g.records.items()} }; '
+                               f'program {i} (X pattern {marks[i]}) at point {dict(e.params.param_dict)} x{rr[i]} measures { {k: a.tolist() for k, a in e.records.items()} }')
+            # every program is run exactly once, with its own settings, at most jobs_per_batch programs per API call
+            ran = sorted((program_mark(cirq, c), sweep_id(p_), r) for cs, p_, r in proc.calls for c in cs)
+            if why is None and ran != sorted(zip(marks, map(sweep_id, pp), rr)):
+                why = f'the processor was asked to run (program, sweep, repetitions) {ran}'
+            if why is None and any(len(cs) > max(1, jpb) or not cs for cs, _, _ in proc.calls):
+                why = f'API calls with {[len(cs) for cs, _, _ in proc.calls]} programs'
+            if why is not None:
+                ctx.violation('sampler:processor:run_batch', label(entry) + ' does not return the results of programs[i] at position i: ' + why, rp)
+            # for the model: every result named by the (program, sweep point) whose expected result it is
+            def name(i, j, g):
+                if i < npg and j < len(exp[i]) and exp[i][j] == g:
+                    return (i, j, int(g.repetitions))
+                for i2 in range(npg):
+                    for j2 in range(len(exp[i2])):
+                        if exp[i2][j2] == g:
+                            return (i2, j2, int(g.repetitions))
+                return (99, 99, int(g.repetitions))
+            named = [[name(i, j, g) for j, g in enumerate(gs)] for i, gs in enumerate(got)]
+            def position(c):
+                at = [i for i, c_ in enumerate(progs) if c_ is c] or [i for i, m in enumerate(marks) if m == program_mark(cirq, c)]
+                return at[0] if len(at) == 1 else -1
+            rows.append((jpb, npg, None if plist is None else [(sweep_id(p_), len(list(cirq.to_resolvers(p_)))) for p_ in plist], reps, named,
+                         [([position(c) for c in cs], sweep_id(p_), r) for cs, p_, r in proc.calls], marks))
+        # the other entry points of the same sampler: run_sweep / run / sample are the processor's answer for that program
+        if exp is not None and npg >= 1 and origin == 'random':
+            proc = FakeProcessor()
+            sampler = cg.ProcessorSampler(processor=proc, jobs_per_batch=jpb)
+            c0, p0, r0 = progs[0], pp[0], rr[0]
+            e0 = marked_results(cirq, c0, p0, r0)
+            ok = list(sampler.run_sweep(c0, p0, r0)) == e0 and list(duet.run(sampler.run_sweep_async, c0, p0, r0)) == e0
+            pr = cirq.ParamResolver({'t': 1, 'u': 0.5})
+            ok = ok and sampler.run(c0, pr, r0) == marked_results(cirq, c0, pr, r0)[0]
+            ctx.count('sampler:processor:run_sweep', [jpb, marks[0], sweep_id(p0), r0, two_keys], r0 >= 1)
+            if not ok:
+                ctx.violation('sampler:processor:run_sweep', f'ProcessorSampler(jobs_per_batch={jpb}).run_sweep/run_sweep_async/run(program with X pattern {marks[0]}, {p0!r}, '
+                              f'{r0}) is not the answer of the processor for that program', dict(rp, entry='run_sweep'))
+    # ---- the model: how the batch is cut into API calls, and which result lands where
+    nl = lambda xs: '[' + '; '.join(str(int(x)) for x in xs) + ']'
+    pl = lambda xs: '[' + '; '.join(f'({a}, {b})' for a, b in xs) + ']'
+    sh = lambda rows_: '[' + '; '.join('[' + '; '.join(f'({i}, {j}, {r})' for i, j, r in row) + ']' for row in rows_) + ']'
+    cl = lambda calls: '[' + '; '.join(f'({nl(ms)}, {sid}, {r})' for ms, sid, r in calls) + ']'
+    text = ('From Coq Require Import ZArith List Bool Arith.\nFrom VF Require Import Base.Harness Codec.ResultViews Codec.BatchedSampler.\nImport ListNotations.\nOpen Scope nat_scope.\n'
+            '(* a sweep is (identity under ==, number of points); a result is (program index, point index, repetitions) *)\n'
+            'Definition sw_eqb (a b : nat * nat) := Nat.eqb (fst a) (fst b) && Nat.eqb (snd a) (snd b).\n'
+            'Definition rs (c : nat) (p : nat * nat) (r : nat) : list (nat * nat * nat) := map (fun j => (c, j, r)) (seq 0 (snd p)).\n'
+            'Definition t_eqb (a b : nat * nat * nat) := Nat.eqb (fst (fst a)) (fst (fst b)) && Nat.eqb (snd (fst a)) (snd (fst b)) && Nat.eqb (snd a) (snd b).\n'
+            'Definition call_eqb (a b : list nat * nat * nat) := list_eqb Nat.eqb (fst (fst a)) (fst (fst b)) && Nat.eqb (snd (fst a)) (snd (fst b)) && Nat.eqb (snd a) (snd b).\n'
+            'Definition calls_of (jpb n : nat) (pl : option (list (nat * nat))) (rl : nat + list nat) : list (list nat * nat * nat) :=\n'
+            '  match normalize_batch_args n (0, 1) pl rl with\n'
+            '  | Some (ps, rs_) => map (fun j : job => (fst (fst j), fst (snd (fst j)), snd j))\n'
+            '                        (if 1 <? jpb then batches sw_eqb jpb (combine (combine (seq 0 n) ps) rs_)\n'
+            '                         else map (fun cpr => ([fst (fst cpr)], snd (fst cpr), snd cpr)) (combine (combine (seq 0 n) ps) rs_))\n'
+            '  | None => [] end.\n')
+    usable = [rw for rw in rows if all(i >= 0 for ms, _, _ in rw[5] for i in ms)]
+    text += 'Definition c_pbatch : list (nat * nat * option (list (nat * nat)) * (nat + list nat) * list (list (nat * nat * nat)) * list (list nat * nat * nat)) := [\n' + ';\n'.join(
+        f'({jpb}, {npg}, {coq.opt(plens, pl)}, {("inl " + str(rl)) if isinstance(rl, int) else ("inr " + nl(rl))}, {sh(named)}, {cl(calls)})'
+        for jpb, npg, plens, rl, named, calls, _ in usable) + '].\n'
+    text += ('Eval vm_compute in failing (fun c => match c with (jpb, n, pl, rl, out, calls) => '
+             'opt_eqb (list_eqb (list_eqb t_eqb)) (run_batch_jobs sw_eqb rs jpb (0, 1) (seq 0 n) pl rl) (Some out) end) c_pbatch.\n')
+    text += ('Eval vm_compute in failing (fun c => match c with (jpb, n, pl, rl, out, calls) => '
+             'list_eqb call_eqb (calls_of jpb n pl rl) calls end) c_pbatch.\n')
+    vals = coq.parse_evals(coq.coq_eval(f'c18_procsampler_{ctx.seed}_{shard}', text))
+    assert len(vals) == 2, vals
+    for what, val in zip(('results', 'api-calls'), vals):
+        for idx in coq.parse_nat_list(val):
+            jpb, npg, plens, rl, named, calls, marks = usable[idx]
+            ctx.mark_broken('correspondence:sampler:processor:' + what,
+                            f'model and ProcessorSampler(jobs_per_batch={jpb}).run_batch differ on programs {marks}, sweeps (id, points) {plens}, repetitions {rl}: '
+                            f'results (program, point, repetitions) {named}, API calls (programs, sweep id, repetitions) {calls}')
+
+
 def replay(ctx, data):
     cirq = env.import_cirq()
     k = data.get('kind')
@@ -1410,8 +1754,9 @@ def replay(ctx, data):
             r2 = cirq.ResultDict(params=cirq.ParamResolver({'p': 0.25}), records=recs2)
             tot = _try(lambda: mk() + r2)
             same = set(recs) == set(recs2) and all(recs[kk].shape[1:] == recs2[kk].shape[1:] for kk in recs)
-            ok = ok and same == (tot is not None) and (tot is None or all(
-                np.array_equal(tot.records[kk], np.concatenate([recs[kk], recs2[kk]], axis=0)) for kk in recs))
+            why = None if tot is None or not same else spec_add_failure(cirq, recs, recs2, tot)
+            print('r1 + r2:', 'raised' if tot is None else why or 'the digits of r1 followed by those of r2')
+            ok = ok and same == (tot is not None) and why is None
         back = cirq.read_json(json_text=cirq.to_json(mk()))
         ok = ok and back == mk() and all(back.records[kk].shape == recs[kk].shape for kk in recs)
         return ok
@@ -1432,6 +1777,13 @@ def replay(ctx, data):
         for v in sub.violations:
             print(v['what'][:700])
         return not sub.violations and not sub.known_hits
+    if k == 'procsampler':
+        sub = runner.Ctx('C18', 'quick', data.get('seed', 0), LEVEL)
+        cg = env.import_cirq(vendors=('cirq_google',))['cirq_google']
+        procsampler_stream(sub, cirq, cg, 0, only=('replay', data['jobs_per_batch'], data['marks'], data['sweeps'], data['repetitions'], data['mapping'], data['two_keys']))
+        for v in sub.violations:
+            print(v['what'][:700])
+        return not sub.violations and not sub.broken
     if k == 'sampler':
         sub = runner.Ctx('C18', 'quick', data.get('seed', 0), LEVEL)
         sampler_stream(sub, cirq, 60)
